@@ -12,7 +12,8 @@ import ast
 
 from sa import AnalysisError
 from sa.pattern import pmatch, pfind
-from sa.astutil import dotted, src, stmt_text, params, find_stmts, calls_in, method_name, const, resolved_return, deep_resolved
+from sa.boolnf import equivalent
+from sa.astutil import dotted, src, stmt_text, params, find_stmts, calls_in, method_name, const, resolved_return, deep_resolved, if_branches
 
 
 def _major_factor(e):
@@ -216,8 +217,16 @@ def run(model, rep, tier):
         f = Ad.members[name].func
         ifs = [s for s in f.body if isinstance(s, ast.If)]
         p = params(f.node)[0][1]
-        ok = len(ifs) == 1 and src(ifs[0].test).replace(' ', '') == f'{p}<self._sample1.nelems' and f'self._sample1.{name}({p})' in src(ifs[0].body[0]) and \
-            f'self._sample2.{name}({p} - self._sample1.nelems)' in src(ifs[0].orelse[0])
+        ok = len(ifs) == 1
+        if ok:  # whichever way round the test and its branches are written (integers: `not p < n` is `p >= n`)
+            t_, f_ = if_branches(f.body, ifs[0])
+            if equivalent(ifs[0].test, f'{p} < self._sample1.nelems', total_order=True):
+                lo, hi = t_, f_
+            elif equivalent(ifs[0].test, f'not {p} < self._sample1.nelems', total_order=True):
+                lo, hi = f_, t_
+            else:
+                lo = hi = []
+            ok = any(f'self._sample1.{name}({p})' in src(x) for x in lo) and any(f'self._sample2.{name}({p} - self._sample1.nelems)' in src(x) for x in hi)
         rep.ob('R09.1', f.key, f.where(), ok, 'elements below sample1.nelems belong to part 1, the rest to part 2 shifted by sample1.nelems' if ok else
                f'_Add.{name} splits or shifts the element index differently from its siblings', statement=f'{name}: split')
     g = Ad.members['getindex'].func
